@@ -1,11 +1,13 @@
 #!/bin/bash
 # tools/retest_seeded.sh [name-glob]  -- re-applies every kept seeded change to /repo, runs the check of the property
 # it was written against (quick), reverts, and updates the results in its meta.json. Do not run while anything else uses /repo.
-cd /verif || exit 2
+# With VERIF_HOME=<relocated copy of /verif> VERIF_REPO=<copy of /repo> it works on the copies instead (meta.json of the copy is updated).
+HOME_V="${VERIF_HOME:-/verif}"
+cd "$HOME_V" || exit 2
 for d in seeded/${1:-*}/; do
   name=$(basename "$d"); [ -f "$d/patch.diff" ] || continue
   prop=$(python3 -c "import json;print(json.load(open('$d/meta.json'))['breaks_property'])")
-  out=$(tools/try_mutant.sh "/verif/$d/patch.diff" "$prop" 2>&1); code=$(echo "$out" | sed -n 's/^== .* exit=\([0-9]*\).*/\1/p' | head -1)
+  out=$(tools/try_mutant.sh "$HOME_V/$d/patch.diff" "$prop" 2>&1); code=$(echo "$out" | sed -n 's/^== .* exit=\([0-9]*\).*/\1/p' | head -1)
   sigs=$(echo "$out" | sed -n 's/^ *signature: //p' | sort -u | head -3 | paste -sd'|')
   echo "$name $prop exit=$code $sigs"
   python3 - "$d/meta.json" "$prop" "$code" "$sigs" <<'PY'
